@@ -31,7 +31,8 @@ regex_global = re.compile(r'^global\s+(?P<parameters>.*)?')
 regex_coordinate = re.compile(r'\[([\w.+-:]*?)\s*[,]\s*([\w.+-:]*?)\]')
 
 # Single length format, e.g., helps extract the radius of a circle
-regex_length = re.compile(r'(?:\[[^=\]]*\])+[,]\s*([^\[]*)\]')
+# (or the quoted string of a text region, which may contain brackets)
+regex_length = re.compile(r'(?:\[[^=\]]*\])+[,]\s*([\'\"].*[\'\"]|[^\[]*)\]')
 
 # Extracts each 'parameter=value' pair
 regex_meta = re.compile(r'(?:(\w+)\s*=[\s\'\"]*([^,\[\]]+?)[\'\",]+)|(?:(\w+)\s*=\s*\[(.*?)\])')  # noqa: E501
@@ -43,7 +44,9 @@ regex_region = re.compile(r'(?P<include>[+-])?(?P<type>ann(?=\s))?\s*(?P<regiont
 
 # Line format which checks the validity of the line and segregates the
 # meta attributes from the region format.
-regex_line = re.compile(r'(?P<region>[+-]?(?:ann(?=\s))?\s*[a-z]+?\s?\[[^=]+\])(?:\s*,?\s*(?P<parameters>.*))?')  # noqa: E501
+# (the quoted string that closes the region format, i.e., the string of
+# a text region, may contain "=")
+regex_line = re.compile(r'(?P<region>[+-]?(?:ann(?=\s))?\s*[a-z]+?\s?\[(?:[^=\'\"]|(?P<quote>[\'\"]).*?(?P=quote)(?=\s*\]))+\])(?:\s*,?\s*(?P<parameters>.*))?')  # noqa: E501
 
 
 @RegionsRegistry.register(Regions, 'read', 'crtf')
